@@ -54,6 +54,30 @@ def local_field_sources(body, l, through_mutation=True):
     return out
 
 
+def assembled_field_sources(body, l):
+    """Field names feeding the value of local l, where l may be a container assembled in place: the plain (non-mutation)
+    sources of l plus the plain sources of the other arguments of every call that takes `&mut` to a local l derives from
+    (push / extend / extend_from_slice / write ...).  Narrower than derived_from(through_mutation=True), which also follows
+    `&mut self` receivers of unrelated calls."""
+    if l is None:
+        return set()
+    roots = body.derived_from(l, through_mutation=False)
+    out = set(local_field_sources(body, l, through_mutation=False))
+    for bi, t, c in body.calls():
+        if bi not in body.reachable() or not t['args']:
+            continue
+        a0 = op_local(t['args'][0])
+        if a0 is None:
+            continue
+        tgt = body._mutref_target(a0)
+        if tgt is not None and tgt in roots:
+            for a in t['args'][1:]:
+                la = op_local(a)
+                if la is not None:
+                    out |= local_field_sources(body, la, through_mutation=False)
+    return out
+
+
 def _direct_effect_blocks(body, eff):
     out = set()
     reach = body.reachable()
